@@ -360,6 +360,15 @@ func check(propID, tier string) int {
 		if flaky != "" {
 			f.detail = flaky + "\n" + f.detail
 		}
+		if r1.rec == nil && cfg.plain && bin == sc.simRace {
+			// the run killed its (race) process, so it left no trace: render the same plan with the
+			// plain binary, which follows the same tape and schedule
+			pev := &evaluator{bin: sc.sim, env: plainEnv, memKB: cfg.memKB, dir: sc.dir, prop: propID, timeout: cfg.runTimeout}
+			if pr := pev.eval(min); pr.rec != nil {
+				min.Rendered = pr.rec.Sample
+				f.rendered = pr.rec.Sample
+			}
+		}
 		name := fmt.Sprintf("%s-%s-%s.json", propID, tier, core.HashStr(class)[:10])
 		path := filepath.Join(outDir, "replays", name)
 		raw, _ := json.MarshalIndent(struct {
